@@ -3,6 +3,7 @@ import VaxisModel.Model.TextInput
 import VaxisModel.Spec.Editor
 import VaxisModel.Lemmas.Editor
 import VaxisModel.Lemmas.TextInput
+import VaxisModel.Lemmas.TextInputCells
 import VaxisModel.Lemmas.EditorCl
 import VaxisModel.Lemmas.TextInputCl
 import VaxisModel.Gen.EditorKeys
@@ -123,6 +124,34 @@ with a 2-column prompt shows the cursor in column 5. -/
 example :
     (match TextInput.draw (fun g : Nat => if g = 3 then 2 else 1) (TextInput.setContent TextInput.new [3, 0]) [0, 0] 12 with
      | .shown _ c => c | _ => -1) = 5 := by decide
+
+/-- `drawn cells` (textinput): while prompt + text + scrolloff fit in the window — whatever the scroll
+offset left behind — the `SetCell` calls of `Draw` (after the `Fill` that blanks the window) are
+exactly: the prompt's characters from column 0, then the ideal editor's text (in password mode the
+mask instead of each grapheme), every one at the column equal to the display width of what is before
+it (`placed`, `textinput_cells_columns`); no truncator, nothing else. -/
+theorem textinput_cells_fit {G : Type} (width : G → Int) (hw : ∀ g, 0 ≤ width g) (masked : Bool)
+    (m : TextInput.TI G) (prompt : List G) (winW col : Int) (hinv : TIInv m)
+    (hp : TextInput.promptLoop width winW prompt 0 = some col) (hcol : 0 ≤ col)
+    (hfit : col + widthSumI width m.content + 4 < winW) :
+    TextInput.drawCells width masked m prompt winW =
+      some (TextInput.placed width .g prompt 0 ++
+            TextInput.placed width (if masked then fun _ => .mask else .g) (tiAbs m).text col) ∧
+    col = widthSumI width prompt := by
+  refine ⟨drawCells_fit width hw masked m prompt winW col hinv hp hcol hfit, ?_⟩
+  have := promptLoop_col width winW prompt 0 col hp
+  omega
+
+/-- The `k`-th cell of a laid-out list sits at the start column plus the display width of the `k`
+graphemes before it. -/
+theorem textinput_cells_columns {G : Type} (width : G → Int) (f : G → TextInput.Glyph G) (l : List G) (c : Int) (k : Nat) :
+    (TextInput.placed width f l c)[k]? = (l[k]?).map (fun g => (c + widthSumI width (l.take k), f g)) :=
+  placed_getElem? width f l c k
+
+/-- Non-vacuity of `textinput_cells_fit`: prompt "aa", text "世a" in 12 columns: a a 世 · a. -/
+example :
+    TextInput.drawCells (fun g : Nat => if g = 3 then 2 else 1) false (TextInput.setContent TextInput.new [3, 0]) [0, 0] 12 =
+      some [(0, .g 0), (1, .g 0), (2, .g 3), (4, .g 0)] := by decide
 
 /-! ### Texts whose graphemes can merge (combining marks, joiners, variation selectors, flags, jamo)
 
